@@ -114,7 +114,7 @@ var c07Store = core.Mon(c07, "store-passing", func(w *core.W, c *StoreCase) {
 			w.Skip("program-not-derivable")
 			return
 		}
-		sc, err := formula.ParseSourceCode([]byte(src))
+		sc, err := hostParse([]byte(src), true)
 		if err != nil {
 			w.Violation("store-passing", "C07/unparsable", c, "parses", err.Error(), src)
 			return
@@ -248,7 +248,7 @@ var c07Forbidden = core.Mon(c07, "forbidden-target", func(w *core.W, c *Forbidde
 	w.Eval(1)
 	w.Count("forbidden_target_cases")
 	w.Nontrivial("forbidden:" + c.Src)
-	sc, err := formula.ParseSourceCode([]byte(c.Src))
+	sc, err := hostParse([]byte(c.Src), true)
 	if err != nil {
 		return // an error at parse time is fine
 	}
@@ -314,7 +314,7 @@ var c07Bind = core.Mon(c07, "binding-exactness", func(w *core.W, c *BindCase) {
 	r := formula.NewRunner()
 	r.SetThis(d)
 	for _, f := range []string{"$keep = " + c.Val, "1 + 1", "[$keep]"} {
-		sc, perr := formula.ParseSourceCode([]byte(f))
+		sc, perr := hostParse([]byte(f), true)
 		if perr != nil {
 			return
 		}
@@ -337,7 +337,7 @@ var c07Bind = core.Mon(c07, "binding-exactness", func(w *core.W, c *BindCase) {
 })
 
 var c07Frame = core.Mon(c07, "frame", func(w *core.W, c *EvalCase) {
-	sc, err := formula.ParseSourceCode([]byte(c.Src))
+	sc, err := hostParse([]byte(c.Src), true)
 	if err != nil {
 		return
 	}
